@@ -327,6 +327,11 @@ def _check_object_from_file(query, filepath, allow_custom, version, encoding):
     stix_obj = parse(stix_json, allow_custom, version=version)
 
     if stix_obj["type"] == "bundle":
+        if not stix_obj.get("objects"):
+            raise TypeError(
+                "STIX JSON object at '{0}' is a bundle without "
+                "objects".format(filepath),
+            )
         stix_obj = stix_obj["objects"][0]
 
     # check against other filters, add if match
